@@ -68,10 +68,12 @@ class BackendDecisionStream(Stream):
         fz = {'checker': 'CFuzzy', 'policies': [pol('p0', 'allow', 'a+b aab'), pol('p1', 'deny', 'xa+by')],
               'inquiry': inq2, 'rxtable': []}
         # a store larger than any paging window: the enfolding cache is populated by pages of 1000
-        big = {'checker': 'CExact', 'inquiry': inq, 'rxtable': [],
-               'policies': [pol('p%04d' % i, 'deny' if i == 700 else 'allow', 'a' if i in (0, 700) else 'zz')
-                            for i in range(1040)]}
-        return [dict(big, config='enfold_sqlite'),
+        # (the one policy that turns the answer sits on a window edge: the last of the first page)
+        def big(edge):
+            return {'checker': 'CExact', 'inquiry': inq, 'rxtable': [],
+                    'policies': [pol('p%04d' % i, 'deny' if i == edge else 'allow', 'a' if i in (0, edge) else 'zz')
+                                 for i in range(1040)]}
+        return [dict(big(999), config='enfold_sqlite'), dict(big(999), config='enfold_mongo42'),
                 dict(base, config='sqlite'), dict(base, config='mongo42'), dict(base, config='memory'),
                 dict(fz, config='mongo42'), dict(fz, config='sqlite')]
 
